@@ -5,8 +5,12 @@ package main
 // enclosing function changed (hash of the printed declaration), or a site without a justification is
 // a broken obligation and is reported as a disagreement of the stream "inventory".
 //
-// Justifications: "lemma: <Lean theorem>" (the theorem must be one of the obligations of
-// Props/C11.lean — checked here by name against the source file), "guarded-by: <dominating check>"
+// Justifications: "lemma: <theorem>[, <theorem>] [(note)]": each theorem must be an obligation of
+// Props/C11.lean AND be registered in Hts/Tie/C11.lean (`citations`, whose names Lean resolves on every
+// build) for the Go function of the site, at least one of them with kind "ops" (its model contains the
+// partial operations of that function); "model: <theorem> (guard)": the theorem is registered for the
+// function with kind "guards" (a value-level model of another property, in which the site is represented
+// by its dominating guard only; the guard is named in the note); "guarded-by: <dominating check>"
 // (reviewed by hand against the function text with that hash), "safe: <reason>" (cannot panic for a
 // reason local to the expression), "corpus-only" (covered by the search only).
 //
@@ -56,6 +60,31 @@ type c11Expect struct {
 }
 
 var c11TheoremRe = regexp.MustCompile(`(?m)^\s*theorem\s+(\S+)`)
+
+// one row of `citations` in Hts/Tie/C11.lean: (“Name, "ops"|"guards", ["go.func", ...])
+var c11CitationRe = regexp.MustCompile("(?s)\\(``(\\S+?),\\s*\"(ops|guards)\",\\s*\\[(.*?)\\]\\)")
+var c11QuotedRe = regexp.MustCompile(`"([^"]+)"`)
+
+// c11Citations reads the registry: theorem -> function -> set of kinds.
+func c11Citations(root string) map[string]map[string]map[string]bool {
+	reg := map[string]map[string]map[string]bool{}
+	b, err := os.ReadFile(filepath.Join(root, "lean", "Hts", "Tie", "C11.lean"))
+	if err != nil {
+		return reg
+	}
+	for _, m := range c11CitationRe.FindAllStringSubmatch(string(b), -1) {
+		if reg[m[1]] == nil {
+			reg[m[1]] = map[string]map[string]bool{}
+		}
+		for _, q := range c11QuotedRe.FindAllStringSubmatch(m[3], -1) {
+			if reg[m[1]][q[1]] == nil {
+				reg[m[1]][q[1]] = map[string]bool{}
+			}
+			reg[m[1]][q[1]][m[2]] = true
+		}
+	}
+	return reg
+}
 
 func c11Inventory(c *ctx, repo string) {
 	res := c.res
@@ -110,6 +139,10 @@ func c11Inventory(c *ctx, repo string) {
 		}
 	}
 
+	registry := c11Citations(root)
+	if len(registry) == 0 {
+		res.disagree("inventory", "Hts/Tie/C11.lean", "no citation registry found", "a `citations` table")
+	}
 	broken := 0
 	report := func(site, impl, model string) {
 		broken++
@@ -142,15 +175,28 @@ func c11Inventory(c *ctx, repo string) {
 			if !changedFuncs[s.Func] {
 				report(k, "present in source", "no expectation")
 			}
-		case strings.HasPrefix(why, "lemma: "):
-			res.hist("inventory:by-lemma")
-			// "lemma: <theorem>[, <theorem>...] [(free-text note)]"
-			names := strings.SplitN(strings.TrimPrefix(why, "lemma: "), " (", 2)[0]
+		case strings.HasPrefix(why, "lemma: "), strings.HasPrefix(why, "model: "):
+			// "<kind>: <theorem>[, <theorem>...] [(free-text note)]"
+			kind := why[:strings.IndexByte(why, ':')]
+			res.hist("inventory:by-" + kind)
+			names := strings.SplitN(why[len(kind)+2:], " (", 2)[0]
+			hasOps := false
 			for _, name := range strings.Split(names, ", ") {
 				name = strings.TrimSpace(name)
 				if !theorems[name] {
 					report(k, "present in source", "justified by a theorem that does not exist: "+name)
+					continue
 				}
+				kinds := registry[name][s.Func]
+				if len(kinds) == 0 {
+					report(k, "present in source", "theorem "+name+" is not registered (Hts/Tie/C11.lean) as mirroring "+s.Func)
+				}
+				if kinds["ops"] {
+					hasOps = true
+				}
+			}
+			if kind == "lemma" && !hasOps {
+				report(k, "present in source", "`lemma:` needs a theorem whose model contains the partial operations of "+s.Func+" (kind ops)")
 			}
 		case strings.HasPrefix(why, "guarded-by: "):
 			res.hist("inventory:guarded-by")
